@@ -302,3 +302,61 @@ pub fn step(s: TlsState, m: &TlsMessage, to_server: bool) -> Result<usize, &'sta
         Err(StateChangeError::ParseError) => Err("ParseError"),
     }
 }
+
+/// Messages of every kind with widely varied content, obtained by parsing the handshake catalogue,
+/// the magic-random hellos and hellos whose extension block is every known extension (alone and
+/// in pairs). Returns (kind index, message); buffers are leaked on purpose (process lifetime).
+pub fn parsed_corpus() -> Vec<(usize, TlsMessage<'static>)> {
+    use vcommon::catalogue as cat;
+    use vcommon::reference::states::kind;
+    let mut bufs: Vec<Vec<u8>> = Vec::new();
+    for w in cat::handshake_messages(false) {
+        bufs.push(w.buf);
+    }
+    for w in cat::magic_hellos() {
+        if w.lens.first().map_or(false, |l| l.label == "hs_len") {
+            bufs.push(w.buf);
+        }
+    }
+    for w in cat::hellos_with_extension_lists() {
+        if w.lens.first().map_or(false, |l| l.label == "hs_len") {
+            bufs.push(w.buf);
+        }
+    }
+    let mut out = Vec::new();
+    for b in bufs {
+        let b: &'static [u8] = Box::leak(b.into_boxed_slice());
+        if let Ok((_, m)) = parse_tls_message_handshake(b) {
+            let k = match &m {
+                TlsMessage::Handshake(h) => match h {
+                    TlsMessageHandshake::HelloRequest => "HReq",
+                    TlsMessageHandshake::ClientHello(c) => {
+                        if c.session_id.is_some() {
+                            "CH1"
+                        } else {
+                            "CH0"
+                        }
+                    }
+                    TlsMessageHandshake::ServerHello(_) => "SH",
+                    TlsMessageHandshake::ServerHelloV13Draft18(_) => "SH13",
+                    TlsMessageHandshake::NewSessionTicket(_) => "NST",
+                    TlsMessageHandshake::EndOfEarlyData => "EOED",
+                    TlsMessageHandshake::HelloRetryRequest(_) => "HRR",
+                    TlsMessageHandshake::Certificate(_) => "Cert",
+                    TlsMessageHandshake::ServerKeyExchange(_) => "SKE",
+                    TlsMessageHandshake::CertificateRequest(_) => "CReq",
+                    TlsMessageHandshake::ServerDone(_) => "SHD",
+                    TlsMessageHandshake::CertificateVerify(_) => "CV",
+                    TlsMessageHandshake::ClientKeyExchange(_) => "CKE",
+                    TlsMessageHandshake::Finished(_) => "Fin",
+                    TlsMessageHandshake::CertificateStatus(_) => "CSt",
+                    TlsMessageHandshake::NextProtocol(_) => "NP",
+                    TlsMessageHandshake::KeyUpdate(_) => "KU",
+                },
+                _ => continue,
+            };
+            out.push((kind(k), m));
+        }
+    }
+    out
+}
